@@ -2,7 +2,7 @@
    theorems talk about) on implementation states. *)
 open Sm
 open Codec
-let handles (cmd : string) = List.mem cmd ["M"; "EV"; "LB"; "RW"; "OB"; "OA"]
+let handles (cmd : string) = List.mem cmd ["M"; "EV"; "LB"; "RW"; "OB"; "OA"; "DC"]
 let run (cmd : string) (io : inst option) (args : sx list) : unit =
   let i () = match io with Some i -> i | None -> raise (Parse "no instance") in
   match cmd, args with
@@ -46,5 +46,12 @@ let run (cmd : string) (io : inst option) (args : sx list) : unit =
       let pq (qv : q) = ps "("; pz qv.qnum; ps " "; pi (int_of_pos qv.qden); ps ")" in
       (match make_oparray (i ()) label (p_state x) with
        | Ok (ops, locs) -> ps "(oa "; plist pq ops; ps " "; plist pq locs; ps ")"
+       | Err e -> ps "(raise "; perr e; ps ")")
+  | "DC", [doc; early] ->
+      (match compile (p_ddoc doc) (p_bool early) with
+       | Ok ((ci, cx), lb) ->
+           ps "(ok "; pinst ci; ps " "; pstate cx; ps " (";
+           plist pnat lb.lb_std; ps " "; plist (fun ((a, b), c) -> ps "("; pnat a; ps " "; pnat b; ps " "; pnat c; ps ")") lb.lb_mach;
+           ps " "; plist pnat lb.lb_agv; ps "))"
        | Err e -> ps "(raise "; perr e; ps ")")
   | _ -> ps "(error monitor-args)"
